@@ -130,11 +130,20 @@ structure LinkOut where
   hist : List (Entry Arr)
   lastBuf : Option Nat
 
-/-- `Output.push_data` (non-static, info exchanged): prepare, memory-sharing test, append -/
+/-- does `prepare` allocate a new array for this payload?  Only a conversion between non-equivalent units does
+    (`data.to(units)`); a plain payload or one in an equivalent spelling of the units is stored as it is. -/
+def converts (u : LUnit) (pu : Option LUnit) : Bool :=
+  match pu with
+  | none => false
+  | some p => !p.equivalent u
+
+/-- `Output.push_data` (non-static, info exchanged): prepare, memory-sharing test, append.  `buf` is the identity
+    of the payload's buffer; a converted payload is a fresh array that nothing published later can alias. -/
 def push (g : GridKind) (u : LUnit) (o : LinkOut) (t : Int) (pu : Option LUnit) (buf : Nat) (a : Arr) :
     Except Err LinkOut := do
   let x ← prepare g u pu a
-  if o.lastBuf = some buf then .error .dataErr
+  if converts u pu then .ok ⟨o.hist ++ [⟨t, x⟩], none⟩
+  else if o.lastBuf = some buf then .error .dataErr
   else .ok ⟨o.hist ++ [⟨t, x⟩], some buf⟩
 
 /-- a pull through the link -/
